@@ -638,6 +638,16 @@ WORKDIR = None
 
 
 def main():
+    try:
+        _main()
+    finally:
+        if WORKDIR:
+            import shutil
+            os.chdir("/")
+            shutil.rmtree(WORKDIR, ignore_errors=True)
+
+
+def _main():
     global WORKDIR
     args = parse_args()
     if args.out:
